@@ -110,16 +110,18 @@ def confused_values() -> list[Any]:
             [{"title": "x"}, {"title": None}], range(3), (1, 2), {"size": -1}, "{{ x }}"]
 
 
-_ENV_CLASSES: dict[tuple[bool, bool], Any] = {}
+_ENV_CLASSES: dict[tuple, Any] = {}
 
 
-def env_pair(templates: dict[str, str], cfg: tuple[bool, bool, bool] = (True, True, False)) -> Any:
+def env_pair(templates: dict[str, str], cfg: tuple = (True, True, False, False)) -> Any:
     """An environment for the oracle. cfg = (resource limits on, suppress blank
-    control-flow blocks, auto_escape); see c02gen.CONFIGS."""
+    control-flow blocks, auto_escape, shorthand_indexes); see c02gen.CONFIGS."""
     from liquid2 import DictLoader, Environment
 
-    limits, suppress, esc = cfg
-    key = (limits, suppress)
+    limits, suppress, esc = cfg[:3]
+    shorthand = bool(cfg[3]) if len(cfg) > 3 else False
+    cfg = (limits, suppress, esc, shorthand)
+    key = (limits, suppress, shorthand)
     if key not in _ENV_CLASSES:
         if limits:
             class E(Environment):
@@ -128,6 +130,7 @@ def env_pair(templates: dict[str, str], cfg: tuple[bool, bool, bool] = (True, Tr
                 context_depth_limit = 12
                 local_namespace_limit = 20_000
                 suppress_blank_control_flow_blocks = suppress
+                shorthand_indexes = shorthand
         else:
             class E(Environment):  # type: ignore[no-redef]
                 loop_iteration_limit = None
@@ -135,6 +138,7 @@ def env_pair(templates: dict[str, str], cfg: tuple[bool, bool, bool] = (True, Tr
                 context_depth_limit = 30
                 local_namespace_limit = None
                 suppress_blank_control_flow_blocks = suppress
+                shorthand_indexes = shorthand
         _ENV_CLASSES[key] = E
     env = _ENV_CLASSES[key](loader=DictLoader(templates), auto_escape=esc)
     env._verif_cfg = cfg
@@ -186,8 +190,9 @@ def run_one(chk: C.Check, env: Any, src: str, data: dict[str, Any], stats: dict[
     LiquidError may escape, and the async twin must end like the sync render
     (same error class, or both succeed). Without resource limits a time-out is
     not a finding (the run is skipped)."""
-    cfg = getattr(env, "_verif_cfg", (True, True, False))
-    replay = dict(replay, config={"limits": cfg[0], "suppress_blank_control_flow_blocks": cfg[1], "auto_escape": cfg[2]})
+    cfg = getattr(env, "_verif_cfg", (True, True, False, False))
+    replay = dict(replay, config={"limits": cfg[0], "suppress_blank_control_flow_blocks": cfg[1], "auto_escape": cfg[2],
+                                  "shorthand_indexes": cfg[3]})
     stats["parse_render_cases"] += 1
 
     def report(e: BaseException, where: str) -> None:
@@ -381,14 +386,20 @@ def run_oracles(chk: C.Check, r: Any, stats: dict[str, int]) -> None:
         # the configuration rotates with the form and the hole: every hole meets every configuration
         run_one(chk, cfg_envs[G2.CONFIGS[(n + n // len(G2.EXPR_FORMS)) % len(G2.CONFIGS)]], src, data, stats,
                 {"source": src, "templates": tpl, "data": "harness/c02gen.py EXPR_DATA", "stream": "expression forms"})
+    # ---- (d2b) bracket-rooted and shorthand-index paths in every hole, shorthand_indexes on
+    for sup in (True, False):
+        shenv = env_pair(G2.EXPR_TEMPLATES, (True, sup, False, True))
+        for src, _tpl, data in G2.shorthand_cases():
+            stats["shorthand_path_cases"] = stats.get("shorthand_path_cases", 0) + 1
+            run_one(chk, shenv, src, data, stats, {"source": src, "data": "c02gen.EXPR_DATA", "stream": "shorthand paths"})
     # ---- (d3) type-confused subscripts
-    env = env_pair({})
-    for src, data in G2.subscript_cases(r, chk.tier):
+    senvs = {cfg: env_pair({}, cfg) for cfg in G2.CONFIGS}
+    for n, (src, data) in enumerate(G2.subscript_cases(r, chk.tier)):
         stats["subscript_cases"] += 1
-        run_one(chk, env, src, data, stats, {"source": src, "data": safe_repr(data)[:300], "stream": "subscripts"})
+        run_one(chk, senvs[G2.CONFIGS[n % len(G2.CONFIGS)]], src, data, stats, {"source": src, "data": safe_repr(data)[:300], "stream": "subscripts"})
     # ---- (d4) cyclic template graphs: recursion ends in a LiquidError
-    for g in G2.graph_cases(r, chk.tier):
-        genv = env_pair(g)
+    for n, g in enumerate(G2.graph_cases(r, chk.tier)):
+        genv = env_pair(g, G2.CONFIGS[n % len(G2.CONFIGS)])
         for name in g:
             run_graph(chk, genv, name, stats, {"templates": g, "entry": name, "stream": "template graphs",
                                                "how": "Environment(loader=DictLoader(templates)).get_template(entry).render()"})
@@ -416,9 +427,10 @@ def run_oracles(chk: C.Check, r: Any, stats: dict[str, int]) -> None:
                 {"source": src, "data": safe_repr(data)[:600], "stream": "shaped data x argument positions"})
 
     # ---- (e) the recorded witnesses, re-observed on every run
-    env = env_pair({})
-    for src, data in KNOWN_WITNESSES:
-        run_one(chk, env, src, data, stats, {"source": src, "data": safe_repr(data), "recorded_witness": True})
+    for wcfg in ((True, True, False, False), (True, True, False, True)):
+        env = env_pair({}, wcfg)
+        for src, data in KNOWN_WITNESSES:
+            run_one(chk, env, src, data, stats, {"source": src, "data": safe_repr(data), "recorded_witness": True})
 
 
 
